@@ -323,7 +323,9 @@ def slim_case(case, obs):
     if not case:
         return None
     c = dict(case)
-    if 'obs' in c and 'vi' in obs:
+    if 'obs' in c and 'vi' in obs and c['obs'] and 'vi' in c['obs'][0]:
         c['obs'] = [x for x in c['obs'] if x.get('vi') == obs['vi'] and x.get('codec') == obs.get('codec')
-                    and x.get('ne') == obs.get('ne')]
+                    and x.get('ne') == obs.get('ne') and x.get('dir') == obs.get('dir')]
+    elif 'obs' in c and isinstance(obs.get('vi'), int) and 0 < obs['vi'] <= len(c['obs']):
+        c['obs'] = [c['obs'][obs['vi'] - 1]]
     return c
